@@ -29,6 +29,8 @@ def attach(runobj, fns, rounds, threads, label):
     runobj.count("sched_determinism_comparisons", c.get("schedule_determinism_comparisons", 0))
     runobj.count("sched_baton_switches", c.get("vrt_switches", 0))
     runobj.count("sched_instrumented_accesses", c.get("vrt_accesses_checked", 0))
+    runobj.count("sched_race_directed_runs", c.get("vrt_directed_runs", 0))
+    runobj.count("sched_parks_at_shared_accesses", c.get("vrt_parks", 0))
     for v in out["violations"]:
         runobj.violation("%s:%s" % (label, v["key"]), v["what"], v["replay"])
 
